@@ -281,7 +281,7 @@ func orderAgreementRule(P *Program, R *Report) {
 	}
 	// within a structure: same order on both sides (shared with C12.e)
 	for _, k := range []string{kRPCFP, kRPCFS} {
-		f := mustFunc(P, R, rule, k)
+		f := relationsHost(P, mustFunc(P, R, rule, k))
 		if f == nil {
 			continue
 		}
